@@ -306,6 +306,13 @@ let handle (line : string) : string =
      | Some (k, n) -> Printf.sprintf "ok %d/%d" (int_of_nat k) (int_of_nat n)
      | None -> "none")
   | [ "nuke"; h ] -> "ok " ^ hex_of_bytes (nuke (bytes_of_hex h))
+  | "nukedoc" :: ps ->
+    (* a document of pieces: A = after-sentinel, B = before-sentinel, T<hex> = text run *)
+    let piece p =
+      if p = "A" then PAfter else if p = "B" then PBefore
+      else PText (bytes_of_hex (String.sub p 1 (String.length p - 1))) in
+    let ((ok, rw), sp) = doc_check (List.map piece ps) in
+    Printf.sprintf "ok %d %s %s" (if ok then 1 else 0) (hex_of_bytes rw) (hex_of_bytes sp)
   | [ "unquote"; h ] -> (match go_unquote (bytes_of_hex h) with None -> "err" | Some b -> "ok " ^ hex_of_bytes b)
   | [ "tokens"; h ] -> tokens_of (bytes_of_hex h) 100000
   | [ "quote"; h ] -> "ok " ^ hex_of_bytes (go_quote (bytes_of_hex h))
